@@ -196,6 +196,21 @@ def _key(v):
     return v
 
 
+def dict_key(I, d, key):
+    """The key under which *key* lives in dict *d*, honouring a class-defined __eq__
+    (objects that compare equal are one dictionary key in Python)."""
+    key = _key(key)
+    if isinstance(key, SymObj) and key.cls is not None and key not in d:
+        m = key.cls.lookup("__eq__")
+        if m is not _MISSING:
+            for k in d:
+                if isinstance(k, SymObj) and k.cls is key.cls:
+                    r = I.call(BoundMethod(m, key), [k], {})
+                    if r is True or r is sp.true:
+                        return k
+    return key
+
+
 def compare(I, op, a, b):
     if isinstance(a, Phi):
         return sp.ITE(a.cond, _b(compare(I, op, a.a, b)), _b(compare(I, op, a.b, b)))
@@ -220,7 +235,7 @@ def compare(I, op, a, b):
             if isinstance(b, str) and not isinstance(a, str):
                 raise SymRaise("TypeError", "in <string> requires string")
             if isinstance(b, dict):
-                r = _key(a) in b or a in b
+                r = _key(a) in b or a in b or (I is not None and dict_key(I, b, a) in b)
             elif isinstance(b, str):
                 r = a in b
             else:
@@ -384,7 +399,7 @@ def subscript(I, base, key):
             return Vec(base.items[key])
         return base.items[concrete_int(key)]
     if isinstance(base, dict):
-        k = _key(key)
+        k = dict_key(I, base, key)
         if k in base:
             return base[k]
         raise SymRaise("KeyError", repr(key))
@@ -421,7 +436,7 @@ def value_attr(I, obj, name):
         if name == "values":
             return Builtin("values", lambda: list(obj.values()))
         if name == "get":
-            return Builtin("get", lambda k, d=None: obj.get(_key(k), d))
+            return Builtin("get", lambda k, d=None: obj.get(dict_key(I, obj, k), d))
         if name == "pop":
             def pop(k, *d):
                 k = _key(k)
@@ -627,6 +642,10 @@ def make_builtins(I):
                 return tuple(pk(x) for x in k)
             if isinstance(k, str):
                 return (1, k)
+            if isinstance(k, SymObj):
+                return (2, k.id)       # only reached on ties of the leading components
+            if k is None:
+                return (-1, 0)
             e = to_expr(k)
             if not e.is_number:
                 raise AnalysisError("sorted over symbolic keys")
